@@ -218,13 +218,64 @@ TreeFails(e) ==
                             THEN {<<"C12", "selected-move-does-not-attain", D(<<e.cmd, d, selTxt>>)>>} ELSE {})
          : d \in 1..e.D}
 
+
+(***************************************************************************)
+(* mcert: a mate announcement beyond the distance MateWithin is evaluated  *)
+(* by brute force, decided through a CERTIFICATE that the harness found    *)
+(* (with code that is not trusted) and that is checked here node by node   *)
+(* against the rules.  Node (position, type, budget n, kids):              *)
+(*   A   the mover mates within n of its moves: ONE kid, a successor by a  *)
+(*       legal move, of type D with budget n-1                             *)
+(*   D   checkmated now, or n >= 1 and EVERY legal reply is a kid of type  *)
+(*       A with budget n (the kids are exactly the legal successors)       *)
+(*   NA  the mover does not mate within n: n = 0, or EVERY legal move is a *)
+(*       kid of type ND with budget n-1                                    *)
+(*   ND  not checkmated and (n = 0, or stalemated, or ONE legal reply is a *)
+(*       kid of type NA with budget n)                                     *)
+(* The budget falls along every A-D-A / NA-ND-NA path, so the local checks *)
+(* imply by induction  A => MateWithin(p, n),  D => Checkmate(p) \/        *)
+(* MatedWithin(p, n),  NA => ~MateWithin(p, n),  ND => ~Checkmate(p) /\    *)
+(* (n = 0 \/ ~MatedWithin(p, n)).                                          *)
+(***************************************************************************)
+NodeKey(x) == <<x.r, x.stm, x.cr, x.ep>>
+PosKey(p) == <<EncodeR(p.b), p.stm, CrInt(p.cr), p.ep>>
+NodeOk(ns, i) ==
+  LET x == ns[i]
+      p == Decode(x)
+      L == Legal(p)
+      succ == {PosKey(Apply(p, m)) : m \in L}
+      kids == {NodeKey(ns[x.k[j]]) : j \in 1..Len(x.k)}
+      KidsAre(ty, n) == \A j \in 1..Len(x.k) : x.k[j] \in 1..Len(ns) /\ ns[x.k[j]].t = ty /\ ns[x.k[j]].n = n
+  IN CASE x.t = "A" -> x.n >= 1 /\ Len(x.k) = 1 /\ KidsAre("D", x.n - 1) /\ kids \subseteq succ
+       [] x.t = "D" -> IF L = {} THEN InCheck(p.b, p.stm)
+                       ELSE x.n >= 1 /\ KidsAre("A", x.n) /\ kids = succ
+       [] x.t = "NA" -> x.n = 0 \/ (KidsAre("ND", x.n - 1) /\ kids = succ)
+       [] x.t = "ND" -> IF L = {} THEN ~InCheck(p.b, p.stm)
+                        ELSE x.n = 0 \/ (Len(x.k) = 1 /\ KidsAre("NA", x.n) /\ kids \subseteq succ)
+       [] OTHER -> FALSE
+CertFails(e) ==
+  LET ns == e.nodes
+      n == IF e.claim > 0 THEN e.claim ELSE -e.claim
+      rootType == IF e.cert = "proof" THEN (IF e.claim > 0 THEN "A" ELSE "D") ELSE (IF e.claim > 0 THEN "NA" ELSE "ND")
+  IN IF e.cert = "none" THEN {}
+     ELSE IF Len(ns) = 0 \/ NodeKey(ns[1]) # NodeKey(e.root) \/ ns[1].t # rootType \/ ns[1].n # n
+             \/ \E i \in 1..Len(ns) : ~NodeOk(ns, i)
+          \* a certificate that does not check says nothing about the announcement: the generator that produced it
+          \* disagrees with the rules (C01's business)
+          THEN {<<"C01", "mate-certificate-does-not-check", D(<<e.cmd, e.claim>>)>>}
+     ELSE IF e.cert = "refutation"
+          THEN {<<"C11", IF e.claim > 0 THEN "false-mate-claim" ELSE "false-mated-claim", D(<<e.raw, "refuted by a checked certificate">>)>>}
+     ELSE {}
+
 Fails(e) ==
   CASE e.ev = "sfull" -> (IF WellFormed(Decode(e.root)) THEN FullFails(e) ELSE {})
     [] e.ev = "srun" -> RunFails(e)
     [] e.ev = "stree" -> TreeFails(e)
+    [] e.ev = "mcert" -> CertFails(e)
     [] OTHER -> {<<"TOOL", "unknown-event", D(e.ev)>>}
 
-ZeroCnt == [sfull |-> 0, srun |-> 0, stree |-> 0, infos |-> 0, mates |-> 0, cut_before_first |-> 0, reached_last_iteration |-> 0]
+ZeroCnt == [sfull |-> 0, srun |-> 0, stree |-> 0, infos |-> 0, mates |-> 0, cut_before_first |-> 0, reached_last_iteration |-> 0,
+            mcert_proofs |-> 0, mcert_refutations |-> 0, mcert_none |-> 0, mcert_nodes |-> 0, mcert_beyond_3 |-> 0]
 Count(c, e) ==
   CASE e.ev = "sfull" -> [c EXCEPT !.sfull = @ + 1, !.infos = @ + Len(e.infos),
                                    !.reached_last_iteration = @ + (IF "last_depth" \in DOMAIN e /\ e.last_depth >= 99 THEN 1 ELSE 0),
@@ -232,6 +283,11 @@ Count(c, e) ==
     [] e.ev = "srun" -> [c EXCEPT !.srun = @ + 1, !.infos = @ + Len(e.infos),
                                   !.cut_before_first = @ + (IF Len(e.infos) = 0 THEN 1 ELSE 0)]
     [] e.ev = "stree" -> [c EXCEPT !.stree = @ + 1]
+    [] e.ev = "mcert" -> [c EXCEPT !.mcert_proofs = @ + (IF e.cert = "proof" THEN 1 ELSE 0),
+                                   !.mcert_refutations = @ + (IF e.cert = "refutation" THEN 1 ELSE 0),
+                                   !.mcert_none = @ + (IF e.cert = "none" THEN 1 ELSE 0),
+                                   !.mcert_nodes = @ + Len(e.nodes),
+                                   !.mcert_beyond_3 = @ + (IF e.cert # "none" /\ (e.claim > 3 \/ e.claim < -3) THEN 1 ELSE 0)]
     [] OTHER -> c
 
 \* the reference run becomes the context of the srun events that follow it; the run with k = 0 defines the fallback
